@@ -24,7 +24,7 @@ func init() {
 				Run: ruleDequeStepDirection},
 			{ID: "C04.canonical-empty", Floor: 1, Clause: "the deque has ONE allocated-but-empty encoding, front == 0 and back == -1 (PushBack/PushFront/Len rely on it): on every path of every function that stores the constant -1 into back, the constant 0 is stored into front too",
 				Run: ruleDequeCanonicalEmpty},
-			{ID: "C04.guard-tests-argument", Floor: 3, Clause: "the panic guards of Shrink, Item and Set compare the argument itself (n < 0; i < 0, i >= Len()), not a value computed from it: `Len()+n < 0` lets Shrink(-1) through on a non-empty deque",
+			{ID: "C04.guard-tests-argument", Floor: 5, Clause: "the panic guards of Shrink, Item and Set compare the argument itself (n < 0; i < 0, i >= Len()), not a value computed from it: `Len()+n < 0` lets Shrink(-1) through on a non-empty deque",
 				Run: ruleDequeGuardTestsArgument},
 			{ID: "C04.expand-floor", Floor: 2, Clause: "maybeExpand runs before every push and, when the buffer is full (Len() == len(d.a), which includes the empty buffer), resizes to at least a positive constant: len(d.a) > 0 afterwards (the invariant every modulo in the package relies on)",
 				Run: ruleDequeExpandFloor},
@@ -910,6 +910,7 @@ func ruleDequeGuardTestsArgument(c *Ctx, r *R) {
 		// as an operand; and at least one such comparison `arg < 0` exists
 		negTest := false
 		good := true
+		nUpper, upperOK, upperWhy := 0, true, ""
 		var badPos token.Pos
 		type pblock struct {
 			b     *ssa.BasicBlock
@@ -950,6 +951,22 @@ func ruleDequeGuardTestsArgument(c *Ctx, r *R) {
 						if (op == token.LSS && isConstInt(side[1], 0)) || (op == token.LEQ && isConstInt(side[1], -1)) {
 							negTest = true
 						}
+						if op == token.GEQ || op == token.GTR {
+							// the upper limit: the number of items (Len()), not the size of the ring buffer
+							nUpper++
+							for _, u := range []ssa.Value{resolveVal(argOf(resolveVal(side[1]), chain))} {
+								isLen := false
+								if call, ok := u.(*ssa.Call); ok {
+									if cal := staticCallee(&call.Call); cal != nil && fname(cal) == "Len" && cal.Signature.Recv() != nil && op == token.GEQ {
+										isLen = true
+									}
+								}
+								if !isLen {
+									upperOK = false
+									upperWhy = "the limit is " + path(u)
+								}
+							}
+						}
 						continue
 					}
 					if _, isParam := v.(*ssa.Parameter); isParam {
@@ -968,6 +985,9 @@ func ruleDequeGuardTestsArgument(c *Ctx, r *R) {
 			pos = badPos
 		}
 		r.ok(good && negTest, "deque.Deque."+name+"|guard-tests-argument", pos, name+" must panic for every negative argument: its guard has to test "+pname(arg)+" < 0 on the argument itself, not on a value computed from it")
+		if name != "Shrink" {
+			r.ok(nUpper > 0 && upperOK, "deque.Deque."+name+"|upper-limit-is-len", pos, name+" must panic for every index >= Len(): the guard's upper limit has to be the number of items ("+pname(arg)+" >= Len()), not the size of the ring buffer or another quantity - an index between Len() and the capacity addresses a slot outside the live range: "+upperWhy)
+		}
 	}
 }
 
